@@ -173,8 +173,8 @@ extern "C" void h_img(void) {
             any_view_t av = gil::view(a);
             vp_assert(av.index() == C14_ALT && av.dimensions() == gil::point_t(W2, H2), "img.recreate_view");
             fill_view(v2::get<C14_ALT>(av));   // the new storage holds W2 x H2 pixels (object bounds)
-            // the held image was recreated as the concrete image type would be: same row stride for the requested alignment
-            { img_a_t ref(W2, H2, al); vp_assert(v2::get<C14_ALT>(av).pixels().row_size() == gil::view(ref).pixels().row_size(), "img.recreate_row_stride_as_concrete_image"); }
+            // the held image was recreated as the concrete image type would be: same row stride for the requested alignment (an empty image has no rows to stride over)
+            if (W2 > 0 && H2 > 0) { img_a_t ref(W2, H2, al); vp_assert(v2::get<C14_ALT>(av).pixels().row_size() == gil::view(ref).pixels().row_size(), "img.recreate_row_stride_as_concrete_image"); }
         }
     }
     no_leak();
